@@ -4,6 +4,7 @@ import time
 from . import common as C
 from . import hist
 from . import lim
+from . import cmpeng
 
 HIST_PROPS = set(hist.PROPS)
 
@@ -37,8 +38,25 @@ def check(prop, tier):
         print("%s %s: %d evaluations, %d distinct non-trivial, %d violation(s), %.0f s" %
               (prop, tier, info["cov"]["evaluations"], info["cov"]["distinct_nontrivial"], len(verdict.violations), time.time() - t0))
         return rc
+    if prop in SIMPLE:
+        mod, level, assumptions = SIMPLE[prop]
+        n, info = mod.run_check(prop, tier, verdict)
+        if info is None:
+            return 2
+        C.write_evidence(prop, tier, info["seed"], level, info["cov"], time.time() - t0, len(verdict.violations),
+                         assumptions=assumptions, extra=dict(known_findings=[k[0] for k in verdict.known], notes=verdict.notes))
+        rc = verdict.finish()
+        print("%s %s: %d evaluations, %d distinct non-trivial, %d violation(s), %.0f s" %
+              (prop, tier, info["cov"]["evaluations"], info["cov"]["distinct_nontrivial"], len(verdict.violations), time.time() - t0))
+        return rc
     print("unknown property " + prop)
     return 3
+
+
+SIMPLE = {
+    "C16": (cmpeng, "exploration", ["g++ 12 and clang++ 14 with libstdc++ 12 at -std=c++17 and -std=c++20, ASan+UBSan",
+                                    "std::vector of the same standard library is the oracle; partially ordered elements (double with NaN) are only compared within one standard"]),
+}
 
 
 def hist_assumptions(prop):
@@ -66,10 +84,11 @@ def setup():
     if exe is None:
         print("BUILD-ERROR " + err)
         return 2
-    exes, err = lim.build()
-    if exes is None:
-        print("BUILD-ERROR " + err)
-        return 2
+    for mod in (lim, cmpeng):
+        exes, err = mod.build()
+        if exes is None:
+            print("BUILD-ERROR " + err)
+            return 2
     return 0
 
 
@@ -78,6 +97,7 @@ def claimed():
     for p in sorted(HIST_PROPS):
         out[p] = "fault" if p in ("C05", "C06") else "hist"
     out["C12"] = "lim"
+    out["C16"] = "cmp"
     return out
 
 
